@@ -22,7 +22,22 @@ OBLS = ("config_chain", "pack_for", "rebuild")
 
 
 # ------------------------------------------------------------------------------------------------ C++ for one stack
-def extra_cpp(stack):
+def nested_rebuild(names, reb, k):
+    """od_{k-1} = the primitive's owning data (or configuration); od_i = L_i::owning_data_t(cfg_i, std::move(od_{i+1}))"""
+    out = []
+    last = reb[k - 1]
+    if "owning_data_t(" in last:
+        out.append(f"  auto od{k - 1} = {last};\n")
+    else:
+        out.append(f"  typename {names[k - 1]}::owning_data_t od{k - 1}({last});\n")
+    for i in range(k - 2, -1, -1):
+        out.append(f"  typename {names[i]}::owning_data_t od{i}({reb[i]}, std::move(od{i + 1}));\n")
+    return "".join(out)
+
+
+def extra_cpp(stack, nested=False):
+    """nested: the rebuilt field is assembled bottom-up through every layer's (configuration, backend owning data&&) constructor
+    (the constructor `read_binary` also ends in) instead of through one parameter pack"""
     lines, Bn, names = G.type_aliases(stack)
     layers = stack.layers()
     k = len(layers)
@@ -54,8 +69,11 @@ def extra_cpp(stack):
         "static std::unique_ptr<field<B>> G_, H_;\n"
         "std::string chain_of(const field<B> & f) {\n  std::ostringstream os;\n" + "\n".join(o_stmts) + "\n  return os.str();\n}\n"
         "std::string vchain_of(const field<B> & f) {\n  typename field<B>::view_t v(f);\n  std::ostringstream os;\n" + "\n".join(v_stmts) + "\n  return os.str();\n}\n"
-        'std::string chain(const In &) { if (!F) return "nosetup"; return "o" + chain_of(*F) + " | v" + vchain_of(*F); }\n'
-        f'std::string rebuild(const In &) {{\n  if (!F) return "nosetup";\n  G_ = std::make_unique<field<B>>(make_parameter_pack({", ".join(reb)}));\n'
+        'std::string chain(const In &) { if (!F) return "nosetup"; return "o" + chain_of(*F) + " | v" + vchain_of(*F); }\n' +
+        (f'std::string rebuild(const In &) {{\n  if (!F) return "nosetup";\n  G_ = std::make_unique<field<B>>(make_parameter_pack({", ".join(reb)}));\n'
+         if not (nested and k >= 2) else
+         'std::string rebuild(const In &) {\n  if (!F) return "nosetup";\n' + nested_rebuild(names, reb, k) +
+         '  G_ = std::make_unique<field<B>>(make_parameter_pack(std::move(od0)));\n') +
         '  return "o" + chain_of(*G_) + " | v" + vchain_of(*G_);\n}\n')
     if has_pf:
         src += (f'std::string packfor(const In & in) {{\n  H_ = std::make_unique<field<B>>(make_parameter_pack_for<field<B>>({", ".join(args)}));\n'
@@ -219,7 +237,7 @@ def evaluate(ctx, items, cfgs):
     corr = Corr()
     for ob in OBLS:
         corr.add_obl(ob)
-    tu_items = [(k, it["stack"], extra_cpp(it["stack"])) for k, it in enumerate(items)]
+    tu_items = [(k, it["stack"], extra_cpp(it["stack"], nested=(k % 2 == 1))) for k, it in enumerate(items)]
     per_tu = max(1, -(-len(items) // C.NCPU)) if len(items) <= 6 * C.NCPU else 6
     exe, failures = G.build_tus(ctx, tu_items, cfgs, per_tu, "c17", ops=("setup", "at", "chain", "rebuild", "packfor", "cmp"))
     for idxs, cfg, err, src in failures:
